@@ -4,6 +4,7 @@ import KitProofs.Lemmas.Spiffe
 import KitProofs.Lemmas.SpiffeRenew
 import KitProofs.Lemmas.SpiffeSim
 import KitProofs.Lemmas.SpiffeDelta
+import KitProofs.Lemmas.SpiffeErr
 /-!
 Property C19 — SPIFFE: readiness never deadlocks; the latest good SVID is served and renewed at
 half-life.  Theorems about the models in `KitModel/Spiffe.lean` (helpers in
@@ -372,9 +373,11 @@ theorem renew_run_reach (dirOn : Bool) (a0 : Nat) (script : List Reply) (t0 : In
 clock advances, trust-anchor changes and — since a fetch takes time — moments at which the issuer
 answers) -/
 
-/-- A concrete run used for the non-vacuity examples: 1 h certificate, then a failure, then success;
-with a write directory; the issuer takes 2 s to answer the first renewal request. -/
-def exScript : List Reply := [.ok 0 3600000000000, .fail, .ok 1800000000000 5400000000000]
+/-- A concrete run used for the non-vacuity examples: 1 h certificate, then a failure (an error that
+wraps `context.DeadlineExceeded` — a per-request timeout of the issuer client — while Run's context is
+alive), then success; with a write directory; the issuer takes 2 s to answer the first renewal request. -/
+def exScript : List Reply :=
+  [.ok 0 3600000000000, .fail { isDeadline := true, tag := 3 }, .ok 1800000000000 5400000000000]
 def ex0 : RN := answer (start true 7 exScript 0)                 -- initial fetch answered at once
 def ex1a : RN := advance ex0 1800000000000                       -- half-life reached: request in flight
 def ex1 : RN := answer (advance ex1a 2000000000)                 -- … answered 2 s later: failure
@@ -632,5 +635,121 @@ theorem fetch_fresh_key_one_fileset {dirOn : Bool} {a0 : Nat} {script : List Rep
     · simp at hf
 
 example : ex2.pub = [⟨2, 2, 7⟩, ⟨0, 0, 7⟩] ∧ ex2.log.map (·.good) = [true, false, true] := by decide
+
+/-! ## error kinds (round 4): the error a failed fetch returns is a parameter of the script -/
+
+/-- **The retry law is independent of the kind of the error.**  Replace every issuer error of a script
+by a plain one (`Reply.plain`: neither `errors.Is(·, context.Canceled)` nor
+`errors.Is(·, context.DeadlineExceeded)`): every action commutes with the replacement, so the whole run
+— request stamps, results, served SVID, every armed timer, published sets, mode — is the same; two
+scripts that differ only in error kinds are indistinguishable on every field but the script itself.
+(`RN.plain` touches only `script`: the last conjunct.) -/
+theorem retry_law_independent_of_error_kind :
+    (∀ (s : RN) (a : Act), act s.plain a = (act s a).plain) ∧
+    (∀ (dirOn : Bool) (a0 : Nat) (script : List Reply) (t0 : Int) (acts : List Act),
+      runActs (start dirOn a0 (script.map Reply.plain) t0) acts =
+        (runActs (start dirOn a0 script t0) acts).map RN.plain) ∧
+    (∀ (dirOn : Bool) (a0 : Nat) (script script' : List Reply) (t0 : Int) (acts : List Act),
+      script.map Reply.plain = script'.map Reply.plain →
+      (runActs (start dirOn a0 script t0) acts).map RN.plain =
+        (runActs (start dirOn a0 script' t0) acts).map RN.plain) ∧
+    (∀ s : RN, s.plain.mode = s.mode ∧ s.plain.svid = s.svid ∧ s.plain.log = s.log ∧
+      s.plain.timers = s.timers ∧ s.plain.pub = s.pub ∧ s.plain.now = s.now ∧ s.plain.wakeAt = s.wakeAt ∧
+      s.plain.reqAt = s.reqAt ∧ s.plain.reqTok = s.reqTok ∧ s.plain.renewAt = s.renewAt) := by
+  refine ⟨act_plain, ?_, ?_, fun s => ⟨rfl, rfl, rfl, rfl, rfl, rfl, rfl, rfl, rfl, rfl⟩⟩
+  · intro dirOn a0 script t0 acts
+    rw [← start_plain, runActs_plain]
+  · intro dirOn a0 script script' t0 acts heq
+    rw [← runActs_plain, ← runActs_plain, start_plain, start_plain, heq]
+
+/-- Non-vacuity: the example script (its failure wraps `context.DeadlineExceeded`), the same script with
+a plain error and with a bare `context.Canceled` differ only in error kinds; the run over the plain one
+reaches the same retry state. -/
+def exScriptPlain : List Reply := [.ok 0 3600000000000, .fail {}, .ok 1800000000000 5400000000000]
+def exP1 : RN := answer (advance (advance (answer (start true 7 exScriptPlain 0)) 1800000000000) 2000000000)
+
+example : exScript.map Reply.plain ≠ exScript ∧ exScript.map Reply.plain = exScriptPlain.map Reply.plain ∧
+    exScript.map Reply.plain =
+      [.ok 0 3600000000000, .fail { isCanceled := true, tag := 8 }, .ok 1800000000000 5400000000000].map Reply.plain := by
+  decide
+
+example : exP1.mode = .retrying ∧ exP1.wakeAt = 1812000000000 ∧ ex1.mode = .retrying ∧ ex1.wakeAt = 1812000000000 ∧
+    exP1.log.map (·.stamp) = [1800000000000, 0] ∧ ex1.log.map (·.stamp) = [1800000000000, 0] := by
+  decide
+
+/-- **A failed renewal is retried 10 s later whatever error it failed with, and `Run` does not
+return.**  From every reachable state with a renewal request outstanding whose scripted answer is an
+error of ANY kind `k` (plain; wrapping `context.Canceled` / `context.DeadlineExceeded`; the bare
+sentinels; the `Err()` of a child context of the issuer's own): the answer leaves the loop waiting on
+the retry timer armed for exactly 10 s after the failure returned, the served SVID untouched; and the
+clock advance that reaches that deadline puts a new request in flight (stamped with that clock value;
+by `retry_every_10s_keeps_svid` this repeats for every further failure until a request succeeds). -/
+theorem failed_renewal_any_error_kind_retried {dirOn : Bool} {a0 : Nat} {script : List Reply} {t0 : Int}
+    {s : RN} (h : RReach dirOn a0 script t0 s) (hm : s.mode = .inflight) (hi : s.reqInit = false)
+    (k : ErrKind) (rest : List Reply) (hs : s.script = .fail k :: rest) :
+    (answer s).mode = .retrying ∧ (answer s).wakeAt = s.now + tenSec ∧ (answer s).now = s.now ∧
+    (answer s).svid = s.svid ∧ (answer s).script = rest ∧
+    (∀ d, 0 < d → tenSec ≤ d →
+      (advance (answer s) d).mode = .inflight ∧ (advance (answer s) d).reqAt = s.now + d ∧
+      (advance (answer s) d).svid = s.svid) := by
+  have hnone : (complete s).2 = none := by simp [complete, outcome, hs]
+  have hrest : (complete s).1.script = rest := by simp [complete, outcome, hs]
+  have cs := complete_spec s
+  have hcore : answerCore s = { (complete s).1 with mode := .retrying, wakeAt := s.now + tenSec, armedAt := s.now,
+                                                     timers := (s.now, tenSec) :: (complete s).1.timers } := by
+    rcases answerCore_cases s with ⟨_, hi', _⟩ | ⟨_, _, hw⟩ | ⟨c, hc, _⟩
+    · rw [hi] at hi'; cases hi'
+    · exact hw
+    · rw [hnone] at hc; cases hc
+  have hnd : (answerCore s).due = false := by
+    cases hd : (answerCore s).due
+    · rfl
+    · have h1 := ((due_iff _).mp hd).2
+      rw [hcore] at h1
+      have h2 : s.now + tenSec ≤ (complete s).1.now := h1
+      rw [cs.now] at h2
+      have := tenSec_pos
+      omega
+  have hans : answer s = answerCore s := by
+    simp only [answer, hm, if_true]
+    show settle 3 (answerCore s) = _
+    simp only [settle, hnd]
+    rfl
+  have hmode : (answer s).mode = .retrying := by rw [hans, hcore]
+  have hwake : (answer s).wakeAt = s.now + tenSec := by rw [hans, hcore]
+  have hnow : (answer s).now = s.now := by rw [hans, hcore]; exact cs.now
+  have hsvid : (answer s).svid = s.svid := by rw [hans, hcore]; exact cs.svid
+  refine ⟨hmode, hwake, hnow, hsvid, by rw [hans, hcore]; exact hrest, ?_⟩
+  intro d hd hten
+  obtain ⟨_, _, hadv⟩ := retry_every_10s_keeps_svid (.ans h) hmode
+  obtain ⟨a1, a2, _, a4, _⟩ := hadv d hd (by rw [hwake, hnow]; omega)
+  exact ⟨a1, by rw [a2, hnow], by rw [a4, hsvid]⟩
+
+/-- Non-vacuity: in the example run the first renewal request (in flight in `advance ex1a 2 s`) is
+answered with an error wrapping `context.DeadlineExceeded`. -/
+example : (advance ex1a 2000000000).mode = .inflight ∧ (advance ex1a 2000000000).reqInit = false ∧
+    (advance ex1a 2000000000).script = .fail { isDeadline := true, tag := 3 } :: [.ok 1800000000000 5400000000000] ∧
+    ex1.mode = .retrying := by decide
+
+/-- **`Run` does not return while its context is alive** (the automaton has no cancel action: the
+context handed to `Run` is alive in every reachable state): the rotation has ended only if the INITIAL
+fetch failed — then nothing is served and that failed request is the whole log; once an SVID is served
+the loop is, in every reachable state and after failures of any kind, waiting on its timer, waiting for
+a retry, or inside a request. -/
+theorem rotation_ends_only_on_initial_failure {dirOn : Bool} {a0 : Nat} {script : List Reply} {t0 : Int}
+    {s : RN} (h : RReach dirOn a0 script t0 s) :
+    (s.mode = .dead → s.svid = none ∧ ∃ r, s.log = [r] ∧ r.good = false) ∧
+    (s.svid ≠ none → s.mode = .waiting ∨ s.mode = .retrying ∨ s.mode = .inflight) := by
+  have hd := dead_only_init h
+  refine ⟨hd, ?_⟩
+  intro hsv
+  cases hm : s.mode with
+  | waiting => exact Or.inl rfl
+  | retrying => exact Or.inr (Or.inl rfl)
+  | inflight => exact Or.inr (Or.inr rfl)
+  | dead => exact absurd (hd hm).1 hsv
+
+example : ex1.svid ≠ none ∧ ex1.mode = .retrying ∧
+    (answer (start false 0 [.fail { isCanceled := true }] 0)).mode = .dead := by decide
 
 end Kit.Spiffe
